@@ -25,7 +25,19 @@ def _extra():
 # ---------------------------------------------------------------------------------------------
 def project_box(c, n=2, default=False):
     x = c.vec('x', n)
-    if default:
+    if default == 'lower_only':                 # documented defaults: lower = 0, upper = 1, each on its own
+        lo = c.vec('l', n); up = 0.0 * x + 1.0
+        for i in range(n): c.assume(lo[i] <= 1)
+        z = S.ProjectBox(x, lo)
+    elif default == 'upper_only':
+        up = c.vec('u', n); lo = 0.0 * x
+        for i in range(n): c.assume(up[i] >= 0)
+        z = S.ProjectBox(x, upper=up)
+    elif default == 'scalar_bounds':
+        l0 = c.real('l0'); u0 = c.real('u0'); c.assume(l0 <= u0)
+        lo, up = 0.0 * x + l0, 0.0 * x + u0
+        z = S.ProjectBox(x, l0, u0)
+    elif default:
         lo, up = 0.0 * x, 0.0 * x + 1.0
         z = S.ProjectBox(x)
     else:
@@ -270,6 +282,8 @@ def jobs(tier):
     for n in ([1, 2] if tier == 'quick' else [1, 2, 3]):
         J.append(Job(f'ProjectBox:n={n}', lambda c, n=n: project_box(c, n), 'Pbox', F('ProjectBox'), _extra))
         J.append(Job(f'ProjectBox:default_bounds:n={n}', lambda c, n=n: project_box(c, n, True), 'Pbox', F('ProjectBox'), _extra))
+        for opt in ('lower_only', 'upper_only', 'scalar_bounds'):
+            J.append(Job(f'ProjectBox:{opt}:n={n}', lambda c, n=n, o=opt: project_box(c, n, o), 'Pbox', F('ProjectBox'), _extra))
         J.append(Job(f'ProjectNonnegative:n={n}', lambda c, n=n: project_nonneg(c, n), 'Pbox', F('ProjectNonnegative'), _extra))
         J.append(Job(f'ProximalL1:n={n}', lambda c, n=n: prox_l1(c, n), 'Pbox', F('ProximalL1'), _extra))
     for form in ('function', 'matrix'):
